@@ -36,6 +36,7 @@ from .numpy_pickle_utils import (
     BUFFER_SIZE,
     Pickler,
     Unpickler,
+    _ExactReadFile,
     _ensure_native_byte_order,
     _read_bytes,
     _validate_fileobject_and_memmap,
@@ -437,7 +438,11 @@ class NumpyUnpickler(Unpickler):
         self.filename = filename
         self.compat_mode = False
         self.ensure_native_byte_order = ensure_native_byte_order
-        Unpickler.__init__(self, self.file_handle)
+        if isinstance(self.file_handle, io.BufferedIOBase):
+            Unpickler.__init__(self, self.file_handle)
+        else:
+            # read(n) of an unbuffered file object may return less than n bytes
+            Unpickler.__init__(self, _ExactReadFile(self.file_handle))
         try:
             import numpy as np
         except ImportError:
